@@ -9,12 +9,13 @@ package main
 //        SET_METADATA         "tt":"ACCOUNT","acc":s | "tt":"TRANSACTION","txid":"n" ; "md":{k:v}|null
 //        DELETE_METADATA      same target ; "key":s
 //        TX = {"postings":[{"s","d","amt":"n","asset"}]|null,"md":{k:v}|null,"ts":rfc3339,"ref":s,"id":"n","reverted":b}
-//      timestamps are given as the API receives them (text) and go through ledger.ParseTime.
+//      timestamps (transaction timestamps AND log dates) are given as the API receives them (text) and go through
+//      ledger.ParseTime, which converts them to UTC.
 //      The logs are built with the repo's own constructors, chained with Log.ChainLog, each entry is marshalled
 //      (json.Marshal), unmarshalled (ChainedLog.UnmarshalJSON), re-chained to the decoded predecessor, and pushed
 //      through the ledgerstore row (InsertLogs' encoding + Logs.ToCore).
 //   {"kind":"raw","json":text}           json.Unmarshal of arbitrary text into a ChainedLog
-//   {"kind":"time","s":text}             ledger.ParseTime, Format, UTC
+//   {"kind":"time","s":text}             ledger.ParseTime, Format, UTC, the instant (Unix seconds, nanoseconds)
 //   {"kind":"sha","hex":bytes}           crypto/sha256
 //   {"kind":"v1","rows":[{"id","type","hash","date","data"}]}  excluded point: legacy rows through LogV1.ToLogsV2 + ToCore
 //   {"kind":"ikbytes","hex":bytes}       excluded point: an idempotency key that is not valid UTF-8 (HTTP header bytes)
@@ -153,7 +154,47 @@ func lrTimestamp(r *rng, extremes bool) string {
 			zone = r.pick([]string{"+24:60", "-24:60", "+24:00"})
 		}
 	}
+	if r.p(8) {
+		return lrBorderTimestamp(r, frac)
+	}
 	return fmt.Sprintf("%04d-%02d-%02dT%02d:%02d:%02d%s%s", year, month, day, h, mi, s, frac, zone)
+}
+
+// a timestamp at a border that the conversion to UTC (and the rounding carry) can cross: the first / last day of the
+// years 0000, 0001, 9999, the turn of a year, the end of February in leap / common / century years, written with an
+// offset up to the extremes time.Parse accepts (+-24:60) and a time of day within the offset's reach of midnight
+func lrBorderTimestamp(r *rng, frac string) string {
+	type ymd struct{ y, m, d int }
+	day := []ymd{{0, 1, 1}, {0, 1, 2}, {0, 12, 31}, {1, 1, 1}, {9999, 12, 31}, {9999, 12, 30}, {9999, 1, 1}, {2023, 12, 31}, {2024, 1, 1},
+		{2024, 2, 29}, {2024, 3, 1}, {2023, 2, 28}, {2023, 3, 1}, {2100, 2, 28}, {2100, 3, 1}, {2000, 2, 29}, {2000, 3, 1}, {1900, 3, 1},
+		{1970, 1, 1}, {1969, 12, 31}, {400, 3, 1}, {4, 2, 29}}[r.n(22)]
+	sign := r.pick([]string{"+", "-"})
+	oh, om := r.n(25), r.n(61)
+	switch r.n(6) {
+	case 0:
+		oh, om = 24, 60
+	case 1:
+		oh, om = 0, 1
+	case 2:
+		oh, om = 14, 0
+	}
+	// the time of day whose UTC reading falls just before / at / just after midnight
+	off := oh*3600 + om*60
+	tod := r.n(86400)
+	switch r.n(5) {
+	case 0: // UTC reading = 00:00:00 of this or a neighbouring day
+		tod = off % 86400
+	case 1:
+		tod = (off + 86399) % 86400
+	case 2:
+		tod = (86400 - off%86400) % 86400
+	case 3:
+		tod = (2*86400 - off%86400 - 1) % 86400
+	}
+	if frac == "" && r.p(50) {
+		frac = r.pick([]string{".9999995", ".9999994", ".999999999", ".0000005"})
+	}
+	return fmt.Sprintf("%04d-%02d-%02dT%02d:%02d:%02d%s%s%02d:%02d", day.y, day.m, day.d, tod/3600, tod/60%60, tod%60, frac, sign, oh, om)
 }
 
 // a log date: what Now() produces (UTC, on a microsecond)
@@ -188,9 +229,8 @@ func lrLog(r *rng) J {
 	if r.p(45) {
 		l["ik"] = lrStr(r)
 	}
-	if r.p(3) { // excluded point: a log date that carries an offset (never produced: Now() is UTC)
+	if r.p(3) { // a log date written with an offset (never produced: Now() is UTC): ParseTime hands it over in UTC like any other
 		l["date"] = lrTimestamp(r, false)
-		l["excluded"] = "log-date-not-from-Now"
 	}
 	extremes := r.p(2)
 	switch r.n(6) {
@@ -278,6 +318,15 @@ var lrTimes = []string{
 	"2023-01-01t00:00:00Z", "2023-01-01T00:00:00z", "2023-01-01 00:00:00Z", "2023-01-01T00:00:00", "2023-01-01T00:00:00+0200", "2023-01-01T00:00:00+02", "2023-01-01T00:00:00Z ",
 	"10000-01-01T00:00:00Z", "202-01-01T00:00:00Z", "2023-1-01T00:00:00Z", "", "Z", "2023-01-01", "2023-01-01T00:00:00+02:00Z", "2023-01-01T00:00:00*02:00", "２０２３-01-01T00:00:00Z",
 	"2023-01-01T00:00:00.5+00:00", "2023-01-01T00:00:00.5-00:00", "1969-12-31T23:59:59.9999999Z", "0001-01-01T00:00:00Z", "2023-06-30T23:59:59.9999997+05:45",
+	// the conversion to UTC at the borders of the printable years
+	"0000-01-01T00:00:00Z", "0000-01-01T00:59:59+01:00", "0000-01-01T01:00:00+01:00", "0000-01-01T00:00:00+00:01", "0000-01-01T00:00:00-00:01",
+	"0000-01-02T00:59:59.9999995+24:60", "0000-01-02T01:00:00+24:60", "0000-01-02T00:59:59.9999994+24:60", "0000-01-01T23:59:59+24:00", "0000-01-01T00:00:00-24:60",
+	"9999-12-31T23:00:00-01:00", "9999-12-31T22:59:59.9999994-01:00", "9999-12-31T22:59:59.9999995-01:00", "9999-12-31T23:59:59-00:01", "9999-12-31T23:59:59+00:01",
+	"9999-12-30T22:59:59.9999994-24:60", "9999-12-30T23:00:00-24:60", "9999-12-31T23:59:59.9999995+24:60", "9999-12-31T00:00:00+24:60",
+	"0001-01-01T00:00:00+24:60", "0001-01-01T00:00:00-24:60", "0000-12-31T23:59:59.9999995-00:00", "0000-03-01T00:00:00+00:01", "0004-02-29T23:59:59.9999999-00:01",
+	"2024-03-01T00:30:00+01:00", "2023-03-01T00:30:00+01:00", "2100-03-01T00:30:00+01:00", "2000-03-01T00:30:00+01:00", "2024-02-29T23:30:00-01:00", "2023-02-28T23:30:00-01:00",
+	"2023-12-31T23:59:59.9999995-00:01", "2024-01-01T00:00:00+00:01", "2024-01-01T00:59:59.9999995+01:00", "1970-01-01T00:00:00+00:01", "1969-12-31T23:59:59.9999995-00:00",
+	"2023-06-15T12:00:00+24:59", "2023-06-15T12:00:00-23:60", "2023-10-29T02:30:00+02:00",
 }
 
 func genLogrt(r *rng, n int, tier string, emit func(J)) {
@@ -713,7 +762,7 @@ func execLogrt(in J) J {
 		if err != nil {
 			return J{"error": true}
 		}
-		out := J{"ok": lrTime(t), "fmt": t.Format(ledger.DateFormat), "utc": lrTime(t.UTC())}
+		out := J{"ok": lrTime(t), "fmt": t.Format(ledger.DateFormat), "utc": lrTime(t.UTC()), "unix": []any{strconv.FormatInt(t.Unix(), 10), t.Nanosecond()}}
 		if b, err := json.Marshal(t); err == nil {
 			out["json"] = string(b)
 			var back ledger.Time
